@@ -542,7 +542,12 @@ Definition frame_resume (f : frame P) (i : input) : outcome (frame P) * list obs
       end
   | FSingle m started =>
       match i with
-      | Send v => if started then (Returned v, []) else (Yielded m (FSingle m true), [])
+      | Send v =>
+          if started then (Returned v, [])
+          else match v with
+               | VNone => (Yielded m (FSingle m true), [])
+               | _ => (Raised ETypeError, [])      (* can't send non-None value to a just-started generator *)
+               end
       | Throw e => (Raised e, [])
       | Close => (Raised EGeneratorExit, [])
       end
@@ -1147,11 +1152,11 @@ Definition step (s : st) (e : event) : st * list obs :=
       match e3 with
       | Some x => let '(s4, o4) := req_result s3 (Some x) in (s4, o3 ++ o4)
       | None =>
-          let s4 := push_frame s3 (FSingle (mk (CStartSuspender sid pre post)) false) in
-          if rstate_eqb (state s4) Paused then let '(s5, o5) := req_result s4 None in (s5, o3 ++ o5)
-          else match set_state s4 Suspending with
-               | None => let '(s5, o5) := req_result s4 (Some ETransition) in (s5, o3 ++ o5)
-               | Some (s5, o5) => let '(s6, o6) := req_result (cancel_task s5) None in (s6, o3 ++ o5 ++ o6)
+          let fr := FSingle (mk (CStartSuspender sid pre post)) false in
+          if rstate_eqb (state s3) Paused then let '(s5, o5) := req_result (push_frame s3 fr) None in (s5, o3 ++ o5)
+          else match set_state s3 Suspending with
+               | None => let '(s5, o5) := req_result s3 (Some ETransition) in (s5, o3 ++ o5)   (* refused as a whole *)
+               | Some (s5, o5) => let '(s6, o6) := req_result (cancel_task (push_frame s5 fr)) None in (s6, o3 ++ o5 ++ o6)
                end
       end
   | EvMain a =>
